@@ -857,7 +857,7 @@ find (regexp * pat, int dir)
 static char *
 getfn (int writeflg)
 {
-  static char file[MAXFNAME];
+  static char file[MAXFNAME + 1];	/* '/' + P_FNAME */
   char *cp;
   char *file2;
   svalue_t *ret;
@@ -866,16 +866,25 @@ getfn (int writeflg)
     {
       P_NOFNAME = TRUE;
       file[0] = '/';
-      strcpy (file + 1, P_FNAME);
+      strncpy (file + 1, P_FNAME, MAXFNAME - 1);
+      file[MAXFNAME] = '\0';
     }
   else
     {
       P_NOFNAME = FALSE;
       Skip_White_Space;
 
+      /* the input line holds up to ED_MAXLINE bytes, a file name MAXFNAME - 1 */
       cp = file;
       while (*inptr && *inptr != NL && *inptr != SP && *inptr != HT)
-        *cp++ = *inptr++;
+        {
+          if (cp >= file + MAXFNAME - 1)
+            {
+              ED_OUTPUT (ED_DEST, "File name too long.\n");
+              return (NULL);
+            }
+          *cp++ = *inptr++;
+        }
       *cp = '\0';
 
     }
@@ -891,16 +900,25 @@ getfn (int writeflg)
       ret = apply_master_ob (APPLY_MAKE_PATH_ABSOLUTE, 1);
       if ((ret == 0) || (ret == (svalue_t *) - 1) || ret->type != T_STRING)
         return NULL;
-      strncpy (file, ret->u.string, sizeof file - 1);
-      file[MAXFNAME - 1] = '\0';
+      if (strlen (ret->u.string) > MAXFNAME)
+        {
+          ED_OUTPUT (ED_DEST, "File name too long.\n");
+          return (NULL);
+        }
+      strcpy (file, ret->u.string);
     }
 
   /* valid_read/valid_write done here */
   file2 = check_valid_path (file, current_editor, "ed_start", writeflg);
   if (!file2)
     return (NULL);
-  strncpy (file, file2, MAXFNAME - 1);
-  file[MAXFNAME - 1] = 0;
+  /* the file that is opened is the one the master approved, not its first bytes */
+  if (strlen (file2) > MAXFNAME - 1)
+    {
+      ED_OUTPUT (ED_DEST, "File name too long.\n");
+      return (NULL);
+    }
+  strcpy (file, file2);
 
   if (strlen (file) == 0)
     {
